@@ -114,6 +114,9 @@ pub struct IOutcome {
     /// class of the first server-flight datagram handed to the rustrtc client after the first HelloVerifyRequest
     pub post_hvr_first: Option<(DClass, bool)>,
     pub saw_native_fragments: bool,
+    /// multi-record datagrams handed to rustrtc / to rustrtc while Connected
+    pub multi_delivered: u32,
+    pub multi_to_connected: u32,
     pub retransmissions: u32,
     pub safety: Check,
     pub app: Check,
@@ -183,6 +186,9 @@ pub async fn run_icase(c: &ICase) -> anyhow::Result<IOutcome> {
             .unwrap_or(false);
         (wire::dtls_class(b), DgInfo { frag, nrec: recs.len() })
     });
+    // multi-record datagrams handed to the rustrtc endpoint (true = it was Connected at that moment)
+    let multi_rx: Arc<Mutex<Vec<bool>>> = Arc::new(Mutex::new(Vec::new()));
+    let rt_slot: Arc<Mutex<Option<Arc<DtlsTransport>>>> = Arc::new(Mutex::new(None));
     {
         // rustrtc -> webrtc-rs
         let (rx, h) = reader(proxy_r.clone(), c.unbundle);
@@ -201,8 +207,14 @@ pub async fn run_icase(c: &ICase) -> anyhow::Result<IOutcome> {
         let (rx, h) = reader(proxy_w.clone(), c.unbundle);
         tasks.push(h);
         let out = proxy_r.clone();
+        let (slot, multi) = (rt_slot.clone(), multi_rx.clone());
         let deliver: Deliver = Arc::new(move |b: Bytes| {
             let out = out.clone();
+            let n = wire::dtls_records(&b).len();
+            if n > 1 {
+                let connected = slot.lock().as_ref().map(|d: &Arc<DtlsTransport>| matches!(d.get_state(), DtlsState::Connected(..))).unwrap_or(false);
+                multi.lock().push(connected);
+            }
             Box::pin(async move {
                 let _ = out.send_to(&b, addr_r).await;
             })
@@ -227,6 +239,8 @@ pub async fn run_icase(c: &ICase) -> anyhow::Result<IOutcome> {
     let mut as_r = rdtls::Certificate::default();
     as_r.certificate = vec![wc.certificate[0].as_ref().to_vec()];
     let (rt_dtls, mut app_rx, runner) = DtlsTransport::new(conn.clone(), rig::cert(0), c.rustrtc_is_client, 2048, Some(rdtls::fingerprint(&as_r))).await?;
+
+    *rt_slot.lock() = Some(rt_dtls.clone());
 
     // webrtc-rs endpoint
     let cfg = Config {
@@ -340,6 +354,10 @@ pub async fn run_icase(c: &ICase) -> anyhow::Result<IOutcome> {
         }
     }
     let end = Instant::now();
+    let multi_counts = {
+        let m = multi_rx.lock();
+        (m.len() as u32, m.iter().filter(|c| **c).count() as u32)
+    };
     let out = {
     let g = layer.lock();
     let last_fault_ms = g.last_fault.map(|lf| if lf > start { ms(lf) } else { 0.0 }).unwrap_or(0.0);
@@ -401,6 +419,8 @@ pub async fn run_icase(c: &ICase) -> anyhow::Result<IOutcome> {
         hvr_delivered,
         post_hvr_first,
         saw_native_fragments,
+        multi_delivered: multi_counts.0,
+        multi_to_connected: multi_counts.1,
         retransmissions,
         safety,
         app,
@@ -457,6 +477,12 @@ pub fn judge(c: &ICase, o: &IOutcome, rec: &CaseRec, known: &Known) -> Check {
     }
     if o.hvr_delivered >= 2 {
         rec.label("interop:second-HelloVerifyRequest-delivered");
+    }
+    if o.multi_delivered > 0 {
+        rec.label("interop:multi-record-datagram-delivered-to-rustrtc");
+    }
+    if o.multi_to_connected > 0 {
+        rec.label("interop:multi-record-datagram-to-Connected-rustrtc");
     }
     for k in &kinds {
         rec.label(format!("interop-fired:{k}"));
@@ -690,9 +716,97 @@ pub fn run(ctx: &mut Ctx, rt: &tokio::runtime::Runtime) {
     } else if let Some(c) = ctx.replay_case::<ICase>("interop-single") {
         run_ibatch(ctx, rt, "interop-single", vec![c], 1, &chk);
     }
-    if (ctx.thorough() && !ctx.has_violation()) || ctx.is_replay() {
-        ctx.sub_async(rt, "interop-random", 400, 64, irandom(), chk.clone());
+    // the reference's own datagram layout (a whole flight per datagram) under the same whole-datagram faults
+    if !ctx.is_replay() {
+        if !ctx.has_violation() {
+            let cases = bundled_cases();
+            ctx.set_extra("interop_bundled_cases", serde_json::json!(cases.len()));
+            run_ibatch(ctx, rt, "interop-bundled", cases, 96, &chk);
+        }
+    } else if let Some(c) = ctx.replay_case::<ICase>("interop-bundled") {
+        run_ibatch(ctx, rt, "interop-bundled", vec![c], 1, &chk);
     }
+    if !ctx.has_violation() || ctx.is_replay() {
+        let n = ctx.scale(150usize, 600usize);
+        ctx.sub_async(rt, "interop-random", n, 64, irandom(), chk.clone());
+    }
+}
+
+/// Datagrams of a handshake with webrtc-rs when nothing is un-bundled: rustrtc sends one record per datagram,
+/// webrtc-rs one flight per datagram (addressed by the class of its first record).
+fn bundled_datagrams(rustrtc_is_client: bool) -> Vec<(bool, DClass, u16)> {
+    if rustrtc_is_client {
+        vec![
+            (true, DClass::ClientHello, 0),
+            (false, DClass::HelloVerifyRequest, 0),
+            (true, DClass::ClientHello, 1),
+            // flight 4: ServerHello, Certificate, ServerKeyExchange, ServerHelloDone
+            (false, DClass::ServerHello, 0),
+            (true, DClass::ClientKeyExchange, 0),
+            (true, DClass::ChangeCipherSpec, 0),
+            (true, DClass::Finished, 0),
+            // flight 6: ChangeCipherSpec, Finished
+            (false, DClass::ChangeCipherSpec, 0),
+        ]
+    } else {
+        vec![
+            (true, DClass::ClientHello, 0),
+            (false, DClass::ServerHello, 0),
+            (false, DClass::Certificate, 0),
+            (false, DClass::ServerKeyExchange, 0),
+            (false, DClass::ServerHelloDone, 0),
+            // flight 5: ClientKeyExchange, ChangeCipherSpec, Finished
+            (true, DClass::ClientKeyExchange, 0),
+            (false, DClass::ChangeCipherSpec, 0),
+            (false, DClass::Finished, 0),
+        ]
+    }
+}
+
+fn bundled_cases() -> Vec<ICase> {
+    let basic = || {
+        vec![
+            Act::Drop,
+            Act::Dup { copies: 1, gap_pct: 0 },
+            Act::Dup { copies: 1, gap_pct: 150 },
+            Act::Delay { pct: 30 },
+            Act::Delay { pct: 150 },
+            Act::Swap { count: 1, max_pct: 250 },
+        ]
+    };
+    let mut cases = Vec::new();
+    for rustrtc_is_client in [true, false] {
+        let mk = |faults: Vec<Fault>| ICase { rustrtc_is_client, mtu: 0, unbundle: false, faults };
+        cases.push(mk(vec![]));
+        let dgs = bundled_datagrams(rustrtc_is_client);
+        for (client, class, ordinal) in dgs.iter().copied() {
+            for act in basic() {
+                let f = Fault { client, class, ordinal, act };
+                if !reference_cannot_recover(rustrtc_is_client, &f) {
+                    cases.push(mk(vec![f]));
+                }
+            }
+            // the same datagram lost twice in a row
+            let twice: Vec<Fault> = (0..2).map(|k| Fault { client, class, ordinal: ordinal + k, act: Act::Drop }).collect();
+            if !twice.iter().any(|f| reference_cannot_recover(rustrtc_is_client, f)) {
+                cases.push(mk(twice));
+            }
+        }
+        if !rustrtc_is_client {
+            // rustrtc's final flight is lost (either record) and so is the reference's first retransmission of flight 5
+            for lost in [DClass::ChangeCipherSpec, DClass::Finished] {
+                cases.push(mk(vec![
+                    Fault { client: false, class: lost, ordinal: 0, act: Act::Drop },
+                    Fault { client: true, class: DClass::ClientKeyExchange, ordinal: 1, act: Act::Drop },
+                ]));
+                cases.push(mk(vec![
+                    Fault { client: false, class: lost, ordinal: 0, act: Act::Drop },
+                    Fault { client: true, class: DClass::ClientKeyExchange, ordinal: 1, act: Act::Dup { copies: 1, gap_pct: 0 } },
+                ]));
+            }
+        }
+    }
+    cases
 }
 
 fn run_ibatch(ctx: &Ctx, rt: &tokio::runtime::Runtime, sub: &str, cases: Vec<ICase>, conc: usize, chk: &AsyncCheck<ICase>) {
